@@ -1,5 +1,6 @@
 """Property registry and the generic check procedure."""
 import json
+import re
 import os
 import time
 from concurrent.futures import ThreadPoolExecutor
@@ -63,9 +64,12 @@ SEQ = {
     "C26": dict(families=["persist", "persistshare"], scale=6, variant="persist", mode="persist", needs=["restored", "op:set", "dv"],
                 rule="persist family (persistence build): persisted and non-persisted functions, histories with serialize -> drop -> "
                      "deserialize into a fresh database between writes; non-trivial = a restore, a write and a validated reuse"),
-    "C23": dict(families=["core", "lru", "struct", "intern", "mixed"], needs=["drop", "retained"],
+    "C23": dict(families=["core", "lru", "struct", "intern", "mixed", "churn", "reclaim"], needs=["drop", "retained"],
+                adopt=r"was not interned in the latest revision|write lock taken; value leaked|access to field whilst the value is being initialized",
                 rule="value lifetime discipline over all sequential families; non-trivial = values dropped and "
-                     "references retained across a read phase"),
+                     "references retained across a read phase; salsa's own guards against reading a slot that may be "
+                     "reused under a live reference (debug assertion in interned data access, tracked-struct read lock) "
+                     "count as violations when they fire on a read the history is entitled to"),
 }
 
 PAR = {
@@ -219,14 +223,19 @@ def finish(pid, tier, seed, results, cfg, known, wd, t0, mc):
             log(r["res"].get("tail", ""))
         raise ToolError("trace validation did not complete")
     own, others, known_hits = [], {}, []
+    adopted = set()
     for r in results:
         jobs_by_id = {j["id"]: j for j in r["jobs"]}
         for (vid, ln, detail) in r["viols"]:
             jid = seqcheck.job_of_line(r["starts"], ln)
             job = jobs_by_id.get(jid)
             if vid != pid:
-                others.setdefault(vid, []).append((r["family"], jid))
-                continue
+                # reports of other properties whose detail names a guard of this property's mechanism are adopted
+                if cfg.get("adopt") and re.search(cfg["adopt"], str(detail)) and (r["family"], ln) not in adopted:
+                    adopted.add((r["family"], ln))
+                else:
+                    others.setdefault(vid, []).append((r["family"], jid))
+                    continue
             kf = known_match(known, pid, job, seqcheck.trace_excerpt(r["trace"], r["starts"], jid, maxlines=100000), detail) if job else None
             if kf:
                 known_hits.append(kf)
